@@ -5,6 +5,7 @@ import (
 	"fmt"
 	"os"
 	"path/filepath"
+	"sort"
 	"strings"
 	"testing"
 
@@ -159,12 +160,24 @@ func (s *Sim) execOp(o *op) {
 		for _, l := range rp {
 			s.log.Add("  pebble: %s", l)
 		}
+		if o.expP != nil && (eq(rs, o.exp) || sqliteEmptyHistoryErr(o, rs)) && eq(rp, o.expP) {
+			// each backend prunes the online-account table exactly as its own OnlineAccountsDelete documents
+			s.differ("backend-mismatch", keyOnlineDelete, fmt.Sprintf("step %d %s: the online-account tables differ after OnlineAccountsDelete: %s", s.step, o.desc, firstDiff(rs, rp)))
+			return
+		}
 		key := s.classify(o, rs, rp)
 		s.differ("backend-mismatch", key, fmt.Sprintf("step %d %s: sqlite and pebble answer differently: %s", s.step, o.desc, firstDiff(rs, rp)))
 		// still hold Pebble against the reference under its own class
-		s.refCheck(o, "pebble", rp)
+		if o.expP == nil && key == o.name {
+			s.refCheck(o, "pebble", rp)
+		}
+	} else if o.expP != nil && eq(rs, o.exp) {
+		// the variants predict a difference that did not show
+		s.differ("reference-mismatch", o.name+"/pebble", fmt.Sprintf("step %d %s: pebble disagrees with the reference model of its own pruning rule: %s", s.step, o.desc, firstDiff(o.expP, rp)))
 	}
 }
+
+const keyOnlineDelete = "OnlineAccountsDelete/pebble-horizon-inclusive-and-blind-to-own-inserts"
 
 func (s *Sim) refCheck(o *op, who string, lines []string) {
 	if o.exp != nil {
@@ -187,6 +200,16 @@ func (s *Sim) classify(o *op, rs, rp []string) string {
 		// SQLite agrees with the reference and Pebble found no stored key at all
 		if o.emptyAns != nil && eq(rp, o.emptyAns) && s.refOK(o, rs) {
 			return o.name + "/pebble-scans-raw-keyspace"
+		}
+	case "LookupOnline":
+		// generickv builds the exclusive upper bound of its range by incrementing the last byte of the round:
+		// for rounds ending in 0xff the byte wraps and the range is empty
+		if o.ffAns != nil && eq(rs, o.exp) && eq(rp, o.ffAns) {
+			return keyOnlineFF
+		}
+	case "LookupOnlineHistory":
+		if sqliteEmptyHistoryErr(o, rs) && eq(rp, o.exp) {
+			return keyHistoryEmpty
 		}
 	default:
 		if suffix, ok := pebbleKnownReaders[o.name]; ok && s.refOK(o, rs) {
@@ -212,7 +235,19 @@ func (s *Sim) refOK(o *op, lines []string) bool {
 	return false
 }
 
+const keyOnlineFF = "LookupOnline/pebble-round-low-byte-ff"
+const keyHistoryEmpty = "LookupOnlineHistory/sqlite-errors-on-empty-history"
+
+// sqlitedriver's LookupOnlineHistory scans the NULL row of its LEFT JOIN into an int64 when the address has
+// no rows (any more) and returns an error where generickv returns an empty list.
+func sqliteEmptyHistoryErr(o *op, lines []string) bool {
+	return o.name == "LookupOnlineHistory" && len(lines) == 1 && lines[0] == "err=err" && len(o.exp) == 1 && strings.HasSuffix(o.exp[0], " n=0")
+}
+
 func (s *Sim) refKey(o *op, who string, lines []string) string {
+	if who == "sqlite" && sqliteEmptyHistoryErr(o, lines) {
+		return keyHistoryEmpty
+	}
 	if who == "pebble" && o.emptyAns != nil && eq(lines, o.emptyAns) {
 		return o.name + "/pebble-scans-raw-keyspace"
 	}
@@ -431,11 +466,20 @@ func (s *Sim) execCommit(p *commitPlan) {
 		name = "batch"
 	}
 	s.stat("op."+name, 1)
-	if !eq(ts, tpb) {
+	if !eq(normRowIDReuse(ts), normRowIDReuse(tpb)) {
 		for _, l := range tpb {
 			s.log.Add("  pebble: %s", l)
 		}
-		s.differ("backend-mismatch", writerOf(ts, tpb), fmt.Sprintf("step %d %s: the two stores answered differently inside the transaction: %s", s.step, p.describe(), firstDiff(ts, tpb)))
+		ts, tpb := normRowIDReuse(ts), normRowIDReuse(tpb)
+		// the only tolerated difference: the "old online row" each store loads differs exactly as the two
+		// documented pruning rules predict (known finding); everything else in the transcript must be equal
+		ns, okS := normOldOnline(ts, s.oldOnlineExp(p, 0))
+		np, okP := normOldOnline(tpb, s.oldOnlineExp(p, 1))
+		if okS && okP && eq(ns, np) {
+			s.differ("backend-mismatch", keyOnlineDelete, fmt.Sprintf("step %d %s: the stores load different old online rows after OnlineAccountsDelete: %s", s.step, p.describe(), firstDiff(ts, tpb)))
+		} else {
+			s.differ("backend-mismatch", writerOf(ts, tpb), fmt.Sprintf("step %d %s: the two stores answered differently inside the transaction: %s", s.step, p.describe(), firstDiff(ts, tpb)))
+		}
 	}
 	want := !p.rollback
 	if cs != want {
@@ -451,6 +495,63 @@ func (s *Sim) execCommit(p *commitPlan) {
 	} else if !cs && !cp {
 		s.stat("rolled_back", 1)
 	}
+}
+
+// normRowIDReuse removes a row-id representation difference from a commit transcript before comparison.
+// SQLite may give a new account the row id of an account deleted in the same commit; accountsNewRoundImpl then
+// finds the new account's resource (ref, aidx) in its pending-deletion set and turns "insert new + delete old"
+// into one update ("addrid might get reused", ledger/acctdeltas.go). Pebble refs are addresses and never
+// collide, so there the ledger issues the insert and the delete. Same rows afterwards (checked by the reads).
+// Canonical form: the upgraded update is written as the insert plus the delete it replaced, and the deletes
+// (whose order is a Go map iteration in the ledger) are sorted and moved to the end.
+func normRowIDReuse(lines []string) []string {
+	var out, dels []string
+	for _, l := range lines {
+		switch {
+		case strings.HasPrefix(l, "UpdateResource(upgraded insert) "):
+			f := strings.Fields(l) // UpdateResource(upgraded insert) A2/3 -> rows=1 ok
+			tgt := f[2]
+			out = append(out, "InsertResource "+tgt+" -> ref ok")
+			dels = append(dels, "DeleteResource "+tgt[strings.IndexByte(tgt, '/')+1:]+" -> rows=1 ok")
+		case strings.HasPrefix(l, "DeleteResource "):
+			dels = append(dels, l)
+		default:
+			out = append(out, l)
+		}
+	}
+	sort.Strings(dels)
+	return append(out, dels...)
+}
+
+// oldOnlineExp: the "oldonline" lines variant v of the model predicts for this plan.
+func (s *Sim) oldOnlineExp(p *commitPlan, v int) map[string]string {
+	out := map[string]string{}
+	for _, d := range p.onl {
+		pre := fmt.Sprintf("oldonline A%d ", d.a)
+		if _, e, ok := latestIn(s.m.hist[v], d.a, ^uint64(0)); ok {
+			out[pre] = pre + "ref=ref data=" + encOnl(e.data)
+		} else {
+			out[pre] = pre + "none"
+		}
+	}
+	return out
+}
+
+// normOldOnline blanks the oldonline lines that match the prediction; ok=false if one does not.
+func normOldOnline(lines []string, exp map[string]string) ([]string, bool) {
+	out := make([]string, len(lines))
+	for i, l := range lines {
+		out[i] = l
+		if strings.HasPrefix(l, "oldonline ") {
+			f := strings.SplitN(l, " ", 3)
+			pre := f[0] + " " + f[1] + " "
+			if exp[pre] != l {
+				return nil, false
+			}
+			out[i] = pre + "<as predicted>"
+		}
+	}
+	return out, true
 }
 
 // writerOf names the first store call whose answers differ.
@@ -512,8 +613,8 @@ func (s *Sim) buildPlan(p []int, batch bool) *commitPlan {
 			a := tgt % nAddr
 			if _, ex := m.accts[a]; ex && !batch && !touchedA[a] {
 				busy := false
-				for _, c := range m.resourcesOf(a) {
-					if touchedR[resKey{a, c}] {
+				for k := range touchedR {
+					if k.a == a {
 						busy = true
 					}
 				}
@@ -769,6 +870,8 @@ func (s *Sim) setup() error {
 			o.MicroAlgos = bad.MicroAlgos
 			o.RewardsBase = bad.RewardsBase
 			s.m.online[i] = map[uint64]onlineEntry{0: {o, ad.NormalizedOnlineBalance(ru)}}
+			s.m.hist[0][i] = map[uint64]onlineEntry{0: {o, ad.NormalizedOnlineBalance(ru)}}
+			s.m.hist[1][i] = map[uint64]onlineEntry{0: {o, ad.NormalizedOnlineBalance(ru)}}
 		}
 	}
 	s.m.params[0] = ledgercore.OnlineRoundParamsData{OnlineSupply: s.m.totals[false].Online.Money.Raw, RewardsLevel: s.m.totals[false].RewardsLevel, CurrentProtocol: Proto}
